@@ -575,6 +575,11 @@ class SharesManager(BaseManager):
             for item in shared_items:
                 item.shared_directory = shared_directory
 
+            # The shared directory is part of the hash of an item: build the
+            # set again so the items are stored under their actual hash
+            # (a set built from another set keeps the hashes it was given)
+            shared_items = {item for item in shared_items}
+
             # Adds all new items to the directory items
             shared_directory.items |= shared_items
 
